@@ -189,12 +189,16 @@ class Ctx:
         chunksize: int = 1,
         context: str = "fork",
         maxtasksperchild: Optional[int] = None,
+        cost: Optional[Callable[[Any], float]] = None,
     ):
         """Run ``fn`` over all ``items`` (shards) on all cores and merge the results.
 
         The shard order is permuted by the seed; the verdict must not depend on it."""
         items = list(items)
         self.rng.shuffle(items)
+        if cost is not None:
+            # expensive shards first (better packing); the seed still permutes equal costs
+            items.sort(key=cost, reverse=True)
         if self.procs <= 1 or len(items) <= 1:
             for item in items:
                 status, res = _run_shard((fn, item))
